@@ -1,7 +1,7 @@
 (* C11 — column and table slices keep their structural invariants.  Statements only; proofs in
    CsFacts.v and SliceFacts.v.  The payload type V of a caller-built slice is the identity of a
    value array (a handle): "the very same array" is equality of payloads. *)
-From Sbdf Require Import ImpCall Gen.Prog ImpFacts ImpFacts7 ImpFactsFrame.
+From Sbdf Require Import Imp ImpCall Gen.Prog ImpFacts ImpFacts7 ImpFactsFrame ImpFactsHeap ImpFactsCells.
 From Coq Require Import List.
 From Sbdf Require Import Slice CsFacts SliceFacts MdFacts.
 
@@ -58,3 +58,47 @@ Theorem C11_source_capacity : forall size, int_min <= size <= 715827882 ->
     callE prog_env f prog_sbdf_calculate_array_capacity [VInt size] [] 0 = OReturn (VInt (array_capacity size)) fin.
 Proof. exact capacity_source. Qed.
 Print Assumptions C11_source_capacity.
+
+(* ---- column slices from the source (src/columnslice.c, src/valuearray.c; cell heap of Imp.v):
+   sbdf_cs_create hands out a fresh slice that refers to the caller's value array, with no
+   properties and not owning; sbdf_cs_get_property returns the array stored with the FIRST
+   property of that name and PROPERTY_NOT_FOUND when there is none, without touching the slice;
+   sbdf_va_row_cnt / sbdf_cs_row_cnt answer from the encoding (plain: the object's count, run-length
+   and bit: the stored row count, anything else: UNKNOWN_VALUEARRAY_ENCODING). *)
+Theorem C11_source_cs_create : forall k sx m h vb,
+  exists f0, forall f, (f0 <= f)%nat -> exists fin,
+    callC prog_env f prog_sbdf_cs_create [tok; VCell vb 0] m k sx h =
+      OReturn (VInt (if k =? 0 then SBDF_ERROR_OUT_OF_MEMORY else SBDF_OK)) fin /\ inb fin = m /\
+    (if k =? 0 then Imp.lookup cells_var (vars fin) = Some (VHeap h)
+     else Imp.lookup cells_var (vars fin) = Some (VHeap (h ++ [Some [VCell vb 0; VInt 0; VInt 0; VInt 0; VInt 0]])) /\
+          Imp.lookup "*out"%string (vars fin) = Some (VCell (List.length h) 0)).
+Proof. exact cs_create_source. Qed.
+Print Assumptions C11_source_cs_create.
+
+Theorem C11_source_cs_get_property : forall k sx m h cb values names props owned nb ncells pb pcells q name pn,
+  cs_block h cb values (zlen pn) names props owned ->
+  as_ptr names = VCell nb 0 -> nth_error h nb = Some (Some ncells) -> names_at m ncells pn ->
+  as_ptr props = VCell pb 0 -> nth_error h pb = Some (Some pcells) -> (List.length pn <= List.length pcells)%nat ->
+  cstr_at m q name -> zlen pn < int_max ->
+  exists f0, forall f, (f0 <= f)%nat -> exists fin,
+    callC prog_env f prog_sbdf_cs_get_property [VCell cb 0; VPtr RIn q; tok] m k sx h =
+      OReturn (VInt (match find_name name pn 0 with Some _ => SBDF_OK | None => SBDF_ERROR_PROPERTY_NOT_FOUND end)) fin /\
+    inb fin = m /\ Imp.lookup cells_var (vars fin) = Some (VHeap h) /\
+    Imp.lookup "*out"%string (vars fin) = Some (match find_name name pn 0 with Some j => as_ptr (nth (Z.to_nat j) pcells VUndef) | None => VUndef end).
+Proof. exact cs_get_property_source. Qed.
+Print Assumptions C11_source_cs_get_property.
+
+Theorem C11_source_row_counts : forall k sx m h cb values n names props owned vb ty enc v1 o1 o2 ob oty cnt data,
+  cs_block h cb values n names props owned -> as_ptr values = VCell vb 0 ->
+  va_block h vb ty enc v1 o1 o2 -> int_min <= enc <= int_max ->
+  (enc = SBDF_PLAINARRAYENCODINGTYPEID -> as_ptr o1 = VCell ob 0 /\ obj_block h ob oty cnt data) ->
+  (exists f0, forall f, (f0 <= f)%nat -> exists fin,
+    callC prog_env f prog_sbdf_va_row_cnt [VCell vb 0] m k sx h = OReturn (VInt (row_cnt_of enc v1 cnt)) fin /\
+    inb fin = m /\ Imp.lookup cells_var (vars fin) = Some (VHeap h)) /\
+  (exists f0, forall f, (f0 <= f)%nat -> exists fin,
+    callC prog_env f prog_sbdf_cs_row_cnt [VCell cb 0] m k sx h = OReturn (VInt (row_cnt_of enc v1 cnt)) fin /\
+    inb fin = m /\ Imp.lookup cells_var (vars fin) = Some (VHeap h)).
+Proof.
+  intros. split; [eapply va_row_cnt_source; eassumption|eapply cs_row_cnt_source; eassumption].
+Qed.
+Print Assumptions C11_source_row_counts.
